@@ -21,10 +21,36 @@ EXPLANATION = (
 RULE = "E7 constructor / statics census with positive controls; E6 origin analysis on value-numbered terms"
 
 
+_HASH_INPUT = ("HashToScalar::hash_to_scalar", "HashToPoint::hash_to_point", "Digest::digest")
+
+
+def live_subterms(t):
+    """Sub-terms that can still influence the value: the input of a hash call is reduced to the atoms of its byte
+    normal form, so a buffer region that was written and then overwritten (or never read) does not count."""
+    seen = set()
+    out = []
+    st = [t]
+    while st:
+        x = st.pop()
+        if not isinstance(x, T) or x in seen:
+            continue
+        seen.add(x)
+        out.append(x)
+        if x.op == "call" and B.cname(x) in _HASH_INPUT and x.a[1]:
+            segs = B.nf(None, x.a[1][0])
+            if B.is_strong(segs):
+                st.extend(B.seg_atoms(segs))
+                st.extend(x.a[1][1:])
+                continue
+        for k in x.kids() if hasattr(x, "kids") else ():
+            st.append(k)
+    return out
+
+
 def draws(t):
     """Draw sub-terms: (kind, generator term)"""
     out = []
-    for s in subterms(t):
+    for s in live_subterms(t):
         if s.op == "call":
             n = B.cname(s)
             if n == "Rng::gen" and s.a[1]:
